@@ -26,7 +26,7 @@ DISC_RSP = Inst('bumble.l2cap:L2CAP_Disconnection_Response#c09')
 ON_CLOSED = 'bumble.l2cap:ChannelManager.on_channel_closed'
 ON_CLOSED_EFFECT = 'bumble.l2cap:ChannelManager.on_channel_closed@effect'
 FRAME_INLINE = ['L2CAP_Control_Frame.__init__', 'L2CAP_Disconnection_Response.__init__', 'L2CAP_Disconnection_Request.__init__']
-CHAN_MOD = ['ghost.chans', 'ghost.cdicts', 'ghost.futs', 'ghost.queues', 'ghost.emitted', 'ghost.frames', 'ghost.idicts']
+CHAN_MOD = ['ghost.chans', 'ghost.cdicts', 'ghost.futs', 'ghost.queues', 'ghost.emitted', 'ghost.frames', 'ghost.last_handle', 'ghost.idicts']
 ABORT_MOD = ['ghost.chans', 'ghost.cdicts', 'ghost.futs', 'ghost.queues', 'ghost.emitted']
 
 
@@ -54,6 +54,8 @@ def others_untouched(self, old, ghost):
     """the channel keeps its identity (manager, connection, CIDs); no other channel object and no other future changed"""
     return [
         same(self.manager, old.self.manager) and same(self.connection, old.self.connection) and self.source_cid == old.self.source_cid and self.destination_cid == old.self.destination_cid,
+        # no other future appears in the fields of the channel
+        (self.connection_result is None or same(self.connection_result, old.self.connection_result)) and (self.disconnection_result is None or same(self.disconnection_result, old.self.disconnection_result)),
         pool_same_except(ghost.chans, old.ghost.chans, [self]),
         pool_same_except(ghost.futs, old.ghost.futs, [old.self.connection_result, old.self.disconnection_result]),
         # a completed future stays completed
@@ -90,7 +92,7 @@ def le_abort_post(self, old, ghost):
 
 
 LE_ABORT_NAMES = ['open-channel-closed', 'otherwise-untouched', 'connection-result-cleared', 'connect-waiter-released',
-                  'disconnection-result-cleared', 'disconnect-waiter-released', 'drain-waiter-released', 'identity-kept', 'other-channels-untouched', 'other-futures-untouched', 'futures-only-complete']
+                  'disconnection-result-cleared', 'disconnect-waiter-released', 'drain-waiter-released', 'identity-kept', 'no-new-future', 'other-channels-untouched', 'other-futures-untouched', 'futures-only-complete']
 LE_INLINE = ['LeCreditBasedChannel._change_state', 'LeCreditBasedChannel.send_control_frame', 'LeCreditBasedChannel.flush_output'] + FRAME_INLINE
 
 LE_ABORT = dict(
@@ -119,7 +121,7 @@ def le_close_post(self, old, ghost):
     ] + others_untouched(self, old, ghost)
 
 
-LE_CLOSE_NAMES = ['closed', 'disconnection-result-cleared', 'disconnect-waiter-released', 'drain-waiter-released', 'identity-kept', 'other-channels-untouched', 'other-futures-untouched', 'futures-only-complete']
+LE_CLOSE_NAMES = ['closed', 'disconnection-result-cleared', 'disconnect-waiter-released', 'drain-waiter-released', 'identity-kept', 'no-new-future', 'other-channels-untouched', 'other-futures-untouched', 'futures-only-complete']
 
 contract(
     'bumble.l2cap:LeCreditBasedChannel.on_disconnection_request',
@@ -164,8 +166,8 @@ CL_INLINE = ['ClassicChannel._change_state', 'ClassicChannel.send_control_frame'
 
 def cl_abort_post(self, old, ghost):
     return [
-        # the link is gone: whatever state the channel was in, it is closed now
-        self.state == CL_CLOSED,
+        # the link is gone: an established channel (open, or waiting for the answer to its disconnection request) is closed
+        implies(old.self.state == CL_OPEN or old.self.state == CL_WAIT_DISCONNECT, self.state == CL_CLOSED),
         # disconnect() awaits this future bare
         self.disconnection_result is None or self.disconnection_result.st != PENDING,
         old.self.disconnection_result is None or now(old.self.disconnection_result).st != PENDING,
@@ -179,7 +181,7 @@ CL_ABORT = dict(
     ghost=HEAP,
     requires=lambda self: [not is_le(self)] + futs_ok(self),
     ensures=cl_abort_post,
-    ensures_names=['closed', 'disconnect-waiter-released', 'disconnect-future-completed', 'tables-untouched', 'identity-kept', 'other-channels-untouched', 'other-futures-untouched', 'futures-only-complete'],
+    ensures_names=['closed', 'disconnect-waiter-released', 'disconnect-future-completed', 'tables-untouched', 'identity-kept', 'no-new-future', 'other-channels-untouched', 'other-futures-untouched', 'futures-only-complete'],
     modifies=ABORT_MOD,
 )
 contract('bumble.l2cap:ClassicChannel.abort', prop='C09', inline=CL_INLINE, **CL_ABORT)
@@ -196,7 +198,7 @@ def cl_close_post(self, old, ghost):
     ] + others_untouched(self, old, ghost)
 
 
-CL_CLOSE_NAMES = ['closed', 'disconnect-waiter-released', 'disconnect-future-completed', 'connect-waiter-released', 'identity-kept', 'other-channels-untouched', 'other-futures-untouched', 'futures-only-complete']
+CL_CLOSE_NAMES = ['closed', 'disconnect-waiter-released', 'disconnect-future-completed', 'connect-waiter-released', 'identity-kept', 'no-new-future', 'other-channels-untouched', 'other-futures-untouched', 'futures-only-complete']
 
 contract(
     'bumble.l2cap:ClassicChannel.on_disconnection_request',
@@ -213,7 +215,8 @@ contract(
 
 
 def cl_rsp_matches(self, response):
-    return response.destination_cid == self.destination_cid and response.source_cid == self.source_cid
+    """the answer to our disconnection request (a stray response, e.g. while the channel is still connecting, is ignored)"""
+    return self.state == CL_WAIT_DISCONNECT and response.destination_cid == self.destination_cid and response.source_cid == self.source_cid
 
 
 contract(
